@@ -4,6 +4,7 @@ import DryocVerif.Spec.Poly1305
 import DryocVerif.Model.Poly1305
 import DryocVerif.Model.SecretStream
 import DryocVerif.Model.Inst
+import DryocVerif.Gen.Stream
 open DryocVerif
 open DryocVerif.Model.SecretStream
 namespace Driver.Stream
@@ -104,6 +105,16 @@ def handle (op : String) (args : List String) : Option Ans :=
       let h := toks.foldl (step (api == "object") (api == "object" || api == "mixed")) h0
       some (";".intercalate h.out.reverse, "n/a")
     | _, _ => none
+  -- `stream_huge <push|pull> <mlen>`: only the LENGTH GUARDS can be evaluated for a message of that size; they are the ones
+  -- machine-translated from the Rust source on every run (`Gen/Stream.lean`, proved to be the model's in `Proofs/GenStream.lean`).
+  -- `err` if a guard fires for an exactly sized buffer, `n/a` otherwise (the body cannot be run on 256 GiB).
+  | "stream_huge", [dir, l] =>
+    match l.toNat? with
+    | some mlen =>
+      let gs := if dir == "push" then Gen.Stream.push_guards mlen (mlen + 17) else Gen.Stream.pull_guards mlen (mlen + 17)
+      if dir != "push" && dir != "pull" then none
+      else some (if gs.any id then "err" else "n/a", "n/a")
+    | none => none
   | _, _ => none
 
 end Driver.Stream
